@@ -59,6 +59,9 @@ pub struct CmdResult {
     pub outcome: Outcome,
     pub stdout: Vec<u8>,
     pub log: Vec<String>,
+    /// a panic happened inside the command although its outcome is not `Panic`: in a blocking
+    /// task, where tokio turns it into a JoinError (site and message of the first one)
+    pub inner_panic: Option<String>,
 }
 
 /// Drive a future under the simulator, catching panics.
@@ -103,12 +106,36 @@ pub fn run_cli_os(args: &[std::ffi::OsString]) -> CmdResult {
     let parsed = catch_unwind(AssertUnwindSafe(|| bita::cli::parse_opts(args.iter().cloned())));
     let (cmd, log_opts) = match parsed {
         Err(_) => {
-            return CmdResult { outcome: Outcome::Panic(take_panic().unwrap_or_else(|| "?".into())), stdout: Vec::new(), log: take_log() }
+            return CmdResult { outcome: Outcome::Panic(take_panic().unwrap_or_else(|| "?".into())), stdout: Vec::new(), log: take_log(), inner_panic: None }
         }
-        Ok(Err(e)) => return CmdResult { outcome: Outcome::Usage(format!("{:?}", e.kind())), stdout: Vec::new(), log: take_log() },
+        Ok(Err(e)) => return CmdResult { outcome: Outcome::Usage(format!("{:?}", e.kind())), stdout: Vec::new(), log: take_log(), inner_panic: None },
         Ok(Ok(v)) => v,
     };
     log::set_max_level(log_opts.filter);
+    // The livelock budget grows with the work a command can legitimately have: it handles at
+    // most a few chunks per byte of the files it can see (a sparse output scanned with BuzHash
+    // and no minimum chunk size is one chunk per zero byte: C05 at VERIF_SEED=11 ran a re-run of
+    // a 3.9 MB update out of 2 M polls that way), and a few polls per chunk.
+    let budget_before = simkit::with(|s| s.step_budget);
+    let visible: u64 = crate::scen::quiet(|| {
+        fn walk(d: &std::path::Path, depth: u32) -> u64 {
+            let mut n = 0;
+            if let Ok(rd) = std::fs::read_dir(d) {
+                for e in rd.flatten() {
+                    if let Ok(m) = e.path().symlink_metadata() {
+                        if m.is_file() {
+                            n += m.len();
+                        } else if m.is_dir() && depth < 3 {
+                            n += walk(&e.path(), depth + 1);
+                        }
+                    }
+                }
+            }
+            n
+        }
+        walk(std::path::Path::new("."), 0)
+    }) + simkit::with(|s| s.stdin.as_ref().map(|i| i.data.len() as u64).unwrap_or(0));
+    simkit::with(|s| s.step_budget = budget_before.saturating_add(visible.saturating_mul(8)));
     // main() sets up its logger here. The harness's logger is already installed, so fern's
     // apply() fails at its last step -- after the sinks have been built, which is the part that
     // can touch the file system (C16)
@@ -126,7 +153,9 @@ pub fn run_cli_os(args: &[std::ffi::OsString]) -> CmdResult {
     let stdout = sys::with(|s| std::mem::take(&mut s.stdout));
     let outcome = outcome_of(r);
     simkit::with(|s| s.event_s("cli-outcome", &outcome.class()));
-    CmdResult { outcome, stdout, log: take_log() }
+    simkit::with(|s| s.step_budget = budget_before);
+    let inner_panic = if matches!(outcome, Outcome::Panic(_)) { None } else { take_panic() };
+    CmdResult { outcome, stdout, log: take_log(), inner_panic }
 }
 
 pub fn args(list: &[&str]) -> Vec<String> {
